@@ -2,7 +2,7 @@
    go/types on this run (Gen_FilterTables.v, Gen_FilterPreds.v). *)
 From Coq Require Import List ZArith Bool String Lia.
 From RG.Base Require Import Outcome.
-From RG.Filters Require Import FilterIR FilterAlgebra Predicates.
+From RG.Filters Require Import FilterIR FilterAlgebra Predicates ExprFacts.
 From RGW Require Import Gen_FilterTables Gen_FilterPreds.
 Import ListNotations.
 Local Open Scope string_scope.
@@ -108,6 +108,13 @@ Proof. vm_compute. reflexivity. Qed.
 Lemma object_is_ok : object_is_okb gen_object_is gen_object_is_accepted = true.
 Proof. vm_compute. reflexivity. Qed.
 Lemma node_is_ok : node_is_okb gen_node_is = true.
+Proof. vm_compute. reflexivity. Qed.
+
+(* the syntactic helpers behind Pure / ConstSlice / Object.* / SinkType.Is have the documented case structure from which
+   is_pure / is_type_expr / ident_of / is_constant_slice / find_sink (RG.Filters.ExprFacts) are transcribed *)
+Lemma helpers_ok :
+  helpers_okb gen_pure_cases gen_typeexpr_cases gen_identof_cases gen_constslice_cases gen_sinkroot_cases gen_sinktype_cases
+              gen_purelist_body gen_containing_func_body gen_sinktype_closure = true.
 Proof. vm_compute. reflexivity. Qed.
 
 (* the constructor summary a documented predicate path reaches *)
